@@ -68,6 +68,12 @@ check('C06', E2,
       'scheduling granularity = intercepted calls; pty data is served from a harness-side buffer (raw mode) because kernel pty delivery is asynchronous and not deterministic; process table simulated (validated against the kernel); large outputs only with deviation bound 1',
       'DESIGN.md 3 C06')
 
+check('C05', E2,
+      'exhaustive enumeration on a virtual clock: entry point x T x transport x peer scenario with its events at every point of a time grid around the deadline x every EINTR answer sequence of select/poll (nested DFS); elapsed virtual time judged exactly',
+      'Every combination of entry point, timeout value, transport and peer behaviour (silent, burst, trickle, match, hang-up while alive, exit, echo-off) with events placed at 0-,0+,T/2,T-e,T+e,3T is executed; the call must end by T+0.25, never TIMEOUT before T while connected, never TIMEOUT with None, match what is pending/readable with T=0.',
+      'virtual time (no real waiting); EINTR modelled as an environment answer; process table simulated; PopenSpawn reader thread eager',
+      'DESIGN.md 3 C05')
+
 NOT_BUILT = {}
 
 
